@@ -31,6 +31,8 @@ def currentPostFilter : Variant := variantOf cpFixPostFilterVar
 def currentEmptyDesc : Variant := variantOf cpFixEmptyDescKeepsCode
 /-- D19b: `Protocol.Invoke`, `*tars.Error` with the success code -/
 def currentZeroCode : Variant := variantOf cpFixZeroCodeIsError
+/-- D20: generated proxy, copy-back into a nil `opts` map -/
+def currentNilMapGuard : Variant := variantOf cpFixNilMapGuard
 
 /-! ## Error values (tars/errors.go) -/
 
@@ -419,14 +421,16 @@ def dispatch (env : Env) (iface : Iface) (req : ReqPacket) : Comp Ev RspPacket (
 /-- registrations of filters on either side -/
 abbrev ServerReg := Reg Ev RspPacket (Option SrvErr)
 
-/-- the three sites that exist in an as-found and a repaired form -/
+/-- the four sites that exist in an as-found and a repaired form -/
 structure Variants where
-  postFilter : Variant := .repaired
-  emptyDesc  : Variant := .repaired
-  zeroCode   : Variant := .repaired
+  postFilter  : Variant := .repaired
+  emptyDesc   : Variant := .repaired
+  zeroCode    : Variant := .repaired
+  nilMapGuard : Variant := .repaired
 
 /-- the variants of the current tree -/
-def currentVariants : Variants := ⟨currentPostFilter, currentEmptyDesc, currentZeroCode⟩
+def currentVariants : Variants :=
+  ⟨currentPostFilter, currentEmptyDesc, currentZeroCode, currentNilMapGuard⟩
 
 /-- what `tcpHandler.handleConn` does with one package -/
 inductive ServerRes where
@@ -618,32 +622,47 @@ def optsMaps (opts : List (Option StrMap)) : Option StrMap × Option StrMap :=
   | [c, s] => (c, s)
   | _ => (none, none)
 
-/-- the copy-back block of the generated proxy:
+/-- the copy-back block of the generated proxy; returns what the caller's context / status maps hold
+    afterwards.  `asFound` (D20):
     ```go
     if len(opts) == 1 { <contextMap := tarsResp.Context> }
     else if len(opts) == 2 { <contextMap := tarsResp.Context>; <statusMap := tarsResp.Status> }
     ```
-    returns what the caller's context / status maps hold afterwards -/
-def copyBackAll (opts : List (Option StrMap)) (rctx rst : StrMap) :
+    where `<m := src>` is `copyBack` (assigning into a nil map panics).  `repaired` (commit
+    "generated proxies no longer panic when the caller passes a nil context or status map"):
+    ```go
+    if len(opts) >= 1 && contextMap != nil { <contextMap := tarsResp.Context> }
+    if len(opts) == 2 && statusMap != nil { <statusMap := tarsResp.Status> }
+    ```
+    a nil map is left alone. -/
+def copyBackAll (v : Variant) (opts : List (Option StrMap)) (rctx rst : StrMap) :
     Except String (Option StrMap × Option StrMap) :=
-  match opts with
-  | [c] =>
-    match copyBack c rctx with
-    | .error site => .error site
-    | .ok c' => .ok (c', none)
-  | [c, s] =>
-    match copyBack c rctx with
-    | .error site => .error site
-    | .ok c' =>
-      match copyBack s rst with
+  match v with
+  | .asFound =>
+    match opts with
+    | [c] =>
+      match copyBack c rctx with
       | .error site => .error site
-      | .ok s' => .ok (c', s')
-  | _ => .ok (optsMaps opts)
+      | .ok c' => .ok (c', none)
+    | [c, s] =>
+      match copyBack c rctx with
+      | .error site => .error site
+      | .ok c' =>
+        match copyBack s rst with
+        | .error site => .error site
+        | .ok s' => .ok (c', s')
+    | _ => .ok (optsMaps opts)
+  | .repaired =>
+    let contextMap := (optsMaps opts).1
+    let statusMap := (optsMaps opts).2
+    let c' := if opts.length ≥ 1 ∧ contextMap.isSome then some rctx else contextMap
+    let s' := if opts.length = 2 ∧ statusMap.isSome then some rst else statusMap
+    .ok (c', s')
 
 /-- the generated proxy after `TarsInvoke` returned nil (not one-way): read the return value (tag 0)
     and the out parameters (tag `k+1`) from `tarsResp.SBuffer` into `ret` and the caller's
     variables, then copy the response context / status back into the caller's maps -/
-def proxyFinish (env : Env) (sig : Sig) (args : List Val) (opts : List (Option StrMap))
+def proxyFinish (v : Variant) (env : Env) (sig : Sig) (args : List Val) (opts : List (Option StrMap))
     (resp : RspPacket) : Result :=
   let fs := rspFields sig
   let olds := (sig.ret.map (zeroOf env)).toList ++ outVals sig.params args
@@ -654,7 +673,7 @@ def proxyFinish (env : Env) (sig : Sig) (args : List Val) (opts : List (Option S
   | .ok vals =>
     let ret := if sig.ret.isSome then vals.head? else none
     let outs := if sig.ret.isSome then vals.drop 1 else vals
-    match copyBackAll opts resp.context resp.status with
+    match copyBackAll v opts resp.context resp.status with
     | .error site => .panicked site
     | .ok (c, s) => .returned none ⟨ret, outs, c, s⟩
 
@@ -670,7 +689,7 @@ def view0 (env : Env) (sig : Sig) (args : List Val) (opts : List (Option StrMap)
   ⟨sig.ret.map (zeroOf env), outVals sig.params args, (optsMaps opts).1, (optsMaps opts).2⟩
 
 /-- the generated proxy function after `TarsInvoke` returned `(err, *resp)` -/
-def proxyAfter (env : Env) (sig : Sig) (oneway : Bool) (args : List Val)
+def proxyAfter (v : Variant) (env : Env) (sig : Sig) (oneway : Bool) (args : List Val)
     (opts : List (Option StrMap)) : List Ev × DoRes × RspPacket → List Ev × Result
   | (tr, .err e, _) => (tr, .returned (some e) (view0 env sig args opts))
   | (tr, .timeout why, _) => (tr, .timeout why)
@@ -678,7 +697,7 @@ def proxyAfter (env : Env) (sig : Sig) (oneway : Bool) (args : List Val)
   | (tr, .nil, resp) =>
     -- `*resp = *msg.Resp`
     if oneway then (tr, .returned none (view0 env sig args opts))
-    else (tr, proxyFinish env sig args opts resp)
+    else (tr, proxyFinish v env sig args opts resp)
 
 /-- A call through the generated proxy function `<fn>WithContext` (`oneway = false`) or
     `<fn>OneWayWithContext` (`oneway = true`) for the interface function `(fn, sig)`:
@@ -688,7 +707,7 @@ def proxyAfter (env : Env) (sig : Sig) (oneway : Bool) (args : List Val)
 def callWith (vs : Variants) (env : Env) (cfg : Cfg) (creg : ClientReg) (sreg : ServerReg)
     (iface : Iface) (fn : Bytes) (sig : Sig) (oneway : Bool) (args : List Val)
     (opts : List (Option StrMap)) : List Ev × Result :=
-  proxyAfter env sig oneway args opts
+  proxyAfter vs.nilMapGuard env sig oneway args opts
     -- TarsInvoke: filters around doInvoke; `msg.Resp` starts as the proxy's `tarsResp`
     (runClient DoRes.nil creg
       (doInvoke vs env cfg sreg iface (proxyRequest env cfg fn sig oneway args opts)) RspPacket.zero)
